@@ -10,7 +10,7 @@ src, hid, checks = sys.argv[1], sys.argv[2], sys.argv[3].split(",")
 dst = os.path.join(ROOT, "harmless", hid)
 os.makedirs(dst, exist_ok=True)
 def sh(cmd, cwd=ROOT, timeout=3600):
-    p = subprocess.run(cmd, cwd=cwd, shell=isinstance(cmd, str), stdout=subprocess.PIPE, stderr=subprocess.STDOUT, text=True, timeout=timeout)
+    p = subprocess.run(cmd, cwd=cwd, shell=isinstance(cmd, str), stdout=subprocess.PIPE, stderr=subprocess.STDOUT, text=True, errors="replace", timeout=timeout)
     return p.returncode, p.stdout
 rc, out = sh(["git", "-C", "/repo", "status", "--short"])
 if out.strip():
